@@ -61,6 +61,16 @@ class Ctx:
     def piece_verifies(self, snap, t, piece, exact):
         idx, segs, data = piece
         got = b""
+        if exact:
+            # exact reading: every non-padding file the piece touches - the empty files whose zero-length
+            # segment it carries included - sits at its export path with exactly the declared length
+            for k, off, ln in piece_segments(t, idx):
+                f = t.files[k]
+                if f.pad:
+                    continue
+                x = snap.get(self.export_rel + tuple(t.rel_target(f)))
+                if not x or x[0] != "file" or len(x[1]) != f.length:
+                    return False
         for k, off, ln in segs:
             f = t.files[k]
             if f.pad:
